@@ -226,7 +226,24 @@ def gen_cases(rng, tier, h):
                 a, b = _rand_quat(rng), _rand_quat(rng)
                 if i % 3 == 0:   # nearly equal -> linear fallback branch
                     b = unit([x + 0.001 * rng.uniform(-1, 1) for x in a])
+                if i % 7 == 1:   # (nearly) antipodal: the same rotation, "long way around" must be avoided
+                    b = [-x for x in a] if i % 2 else unit([-x + 0.001 * rng.uniform(-1, 1) for x in a])
+                if i % 11 == 2:
+                    b = list(a)
                 vals = _gen_arg(rng, nm, "f", "α", i) + _quat_fields(a) + _quat_fields(b)
+            elif nm == "l3_frame_up":
+                n = _rand_unit(rng)
+                k = i % 5
+                if k == 0:
+                    up = list(n)
+                elif k == 1:
+                    up = [-x for x in n]
+                elif k == 2:   # within a few degrees of -N / +N
+                    s_ = rng.pick([1.0, -1.0])
+                    up = unit([s_ * x + 0.05 * rng.uniform(-1, 1) for x in n])
+                else:
+                    up = _rand_unit(rng)
+                vals = n + up
             elif nm == "a3_lookat":
                 eye = [rng.uniform(-2, 2) for _ in range(3)]
                 d = _rand_unit(rng)
@@ -267,9 +284,10 @@ def _q(xs):  # fields i,j,k,r -> (r,i,j,k)
 
 def reference(nm, a, res):
     """-> None (ok / not judged) or message."""
-    if any(x != x or abs(x) == INF for x in a + res):
-        if any(x != x or abs(x) == INF for x in a):
-            return None
+    if any(x != x or abs(x) == INF for x in a):
+        return None
+    if any(x != x or abs(x) == INF for x in res):
+        return "%s returns a non-finite component for finite, well-conditioned arguments: %s" % (nm, res)
     T = 3e-5
     if nm.startswith("l3_") or nm.startswith("l2_"):
         n = 3 if nm.startswith("l3_") else 2
@@ -339,6 +357,12 @@ def reference(nm, a, res):
         elif op in ("frame", "frame_up"):
             m = _cols(res, 3)
             N = a[:3]
+            if op == "frame_up" and abs(sum(x * y for x, y in zip(a[:3], a[3:]))) <= 0.98:
+                up = a[3:]
+                dx = unit(cross(up, N))
+                dy = unit(cross(N, dx))
+                if not _close(flat(m), dx + dy + N, T * 64):
+                    return "frame(N,up) must have axes norm(up x N), norm(N x dx), N: expected %s" % (dx + dy + N)
             g = mat_mul(transpose(m), m)
             if not _close(flat(g), [1, 0, 0, 0, 1, 0, 0, 0, 1], 1e-3) or not _close(m[2], N, 0) or abs(det3(m) - 1) > 1e-3:
                 return "frame(N) must be orthonormal, right-handed, with third axis N: got %s" % m
